@@ -807,7 +807,12 @@ pub fn run_workers(prop: &str, tier: Tier, seed: u64, specs: Vec<WorkerSpec>, wa
                         Some(case) => {
                             let reason = format!("worker killed by signal {} ({}) while running this case", sig, signal_name(sig));
                             eprintln!("[{}] worker {} crashed (signal {}); shrinking in subprocesses", prop, spec.shard, sig);
-                            let (min_case, min_reason) = shrink(&case, &reason, &mut |c| run_case_subprocess(c));
+                            // shrinking a crash costs one subprocess per candidate: do it for the first few crashes only
+                            let (min_case, min_reason) = if merged.violations.iter().filter(|v| v.crashed).count() < 2 {
+                                shrink(&case, &reason, &mut |c| run_case_subprocess(c))
+                            } else {
+                                (case.clone(), reason.clone())
+                            };
                             let sigtxt = crate::props::signature(&min_case);
                             let known = load_known();
                             if known.iter().any(|k| k.property == prop && k.signature == sigtxt) {
